@@ -654,7 +654,7 @@ func TestC29(t *testing.T) {
 		}
 		add(c)
 	}
-	// (2) process death on a filesystem bucket: a sample of the model's scenarios (thorough: all with downtime 0 or 49 h)
+	// (2) process death on a filesystem bucket: a sample of the model's scenarios (thorough: all with downtime 49 h, compaction-run crashes also with downtime 0)
 	for i, c := range tlc {
 		if vt.Str(c["phase"]) == "none" {
 			continue
@@ -662,7 +662,7 @@ func TestC29(t *testing.T) {
 		if !vt.Thorough() && rnd.Intn(len(tlc)) >= 4 && i != 1 {
 			continue
 		}
-		if vt.Thorough() && vt.Int(c["downtime"]) == 3 {
+		if vt.Thorough() && (vt.Int(c["downtime"]) == 3 || (vt.Int(c["downtime"]) == 0 && vt.Str(c["phase"]) == "clean")) {
 			continue
 		}
 		d := vt.Case{}
@@ -687,7 +687,7 @@ func TestC29(t *testing.T) {
 		for _, phase := range []string{"compact", "clean"} {
 			n := len(ref[phase])
 			dts := []int{0, 3, 5}
-			if phase == "clean" {
+			if phase == "clean" || name == "twolevel" || name == "replica3" {
 				dts = []int{0, 5}
 			}
 			for k := 1; k <= n; k++ {
